@@ -116,7 +116,7 @@ def validate_trace(ctx, focus, trace_path, label):
     return lines
 
 
-def check(ctx, focus, binname, mc_cfg, assumptions):
+def check(ctx, focus, binname, mc_cfg, assumptions, before_finish=None):
     ctx.assumptions += assumptions
     tier = QUICK if ctx.quick else THOROUGH
     ctx.build(binname)
@@ -151,6 +151,8 @@ def check(ctx, focus, binname, mc_cfg, assumptions):
     ctx.harness(binname, "trace", "--seed", ctx.seed, "--n", tier["random"], "--out", out, timeout=3000)
     lines = validate_trace(ctx, focus, out, "random")
     ctx.sample({"kind": "recorded collection (real code) validated by Trace_Indexing", "line": max(lines, key=lambda l: len(l["ins"]))})
+    if before_finish:
+        before_finish(ctx)
     return ctx.finish()
 
 
